@@ -5,7 +5,7 @@
 \* Written from the documentation and the property statements C01-C11.
 \*
 \* D.bodies[b]  = [kind "T"|"M", ready (input index, 0 = constant 1), nonexcl, single, hasarg,
-\*                 validate (1 = argument must differ from 3), comb ("mux"|"or"), parent (0 = none),
+\*                 validate (1 = argument must differ from 3), comb ("mux"|"or"|"orx": OR of the active arguments, "orx" additionally XOR 1), parent (0 = none),
 \*                 mod, pos, sid]
 \* D.structs[s] = [kind "If"|"Switch"|"FSM"|"Body", conds, els, test, pats, dflt, obs, body]
 \* D.sites[s]   = [caller, callee, pos, argk "i"|"c"|"n"|"f", argv]
@@ -260,7 +260,8 @@ ArgValO(O, s) == IF D.sites[s].argk = "f" THEN BitXor2(O.din[D.sites[s].caller],
 ArgRouting(O) ==
   \A m \in Meths : (D.bodies[m].hasarg /\ O.runB[m]) =>
      IF D.bodies[m].nonexcl
-     THEN O.din[m] = OrAll({ArgValO(O, s) : s \in ActiveTo(O, m)})
+     THEN O.din[m] = (IF D.bodies[m].comb = "orx" THEN BitXor2(OrAll({ArgValO(O, s) : s \in ActiveTo(O, m)}), 1)
+                      ELSE OrAll({ArgValO(O, s) : s \in ActiveTo(O, m)}))
      ELSE \E s \in ActiveTo(O, m) : O.din[m] = ArgValO(O, s)
 ResultRouting(O) == \A s \in Sites : O.sres[s] = X.v.mouts[D.sites[s].callee]
 \* C07 (eager scheduler)
